@@ -301,11 +301,12 @@ def return_leaves(body):
         if k == "block":
             for s in n.get("stmts", []):
                 scan_returns(s, guards)
+                # `if c { ...; return x }` without else: the rest of the block runs under !c
+                e = s.get("e") if s.get("k") in ("semi", "expr") else None
+                if e is not None and e.get("k") == "if" and "e" not in e and diverges(e["t"]):
+                    guards = guards + [(e["c"], False)]
             if n.get("expr") is not None:
                 tail(n["expr"], guards)
-            else:
-                # last statement may be a `return x;`
-                pass
         elif k == "if":
             scan_returns(n["c"], guards)
             tail(n["t"], guards + [(n["c"], True)])
@@ -350,6 +351,29 @@ def return_leaves(body):
 
     tail(body, [])
     return out
+
+
+def diverges(n):
+    """block / expression that always leaves the function or loop iteration"""
+    if n is None:
+        return False
+    k = n.get("k")
+    if k in ("ret", "break", "continue"):
+        return True
+    if k == "block":
+        if n.get("expr") is not None:
+            return diverges(n["expr"])
+        st = n.get("stmts", [])
+        if st and st[-1].get("k") in ("semi", "expr"):
+            return diverges(st[-1]["e"])
+        return False
+    if k == "if":
+        return "e" in n and diverges(n["t"]) and diverges(n["e"])
+    if k == "match":
+        return bool(n["arms"]) and all(diverges(a["body"]) for a in n["arms"])
+    if k == "call" and (n.get("callee") or "").startswith(("core::panicking", "std::process::exit")):
+        return True
+    return False
 
 
 def guard_text(guards):
